@@ -74,11 +74,14 @@ const (
 	uApplyOn
 	uForceForce
 	uSelf
+	uMutForce
+	uForceMutForce
 	uCount
 )
 
 var lzUseNames = []string{"none", "force1", "force2", "force3", "nested-closure", "keep", "keep+force", "substitute", "substitute+force",
-	"via-strict-fn", "thunk-of-thunk", "pass-to-lazy-unforced", "shadowed-let", "pass-to-ignoring", "apply-on-lazy-obj", "force-force", "self"}
+	"via-strict-fn", "thunk-of-thunk", "pass-to-lazy-unforced", "shadowed-let", "pass-to-ignoring", "apply-on-lazy-obj", "force-force", "self",
+	"state-changed-then-force", "force,state-changed,force"}
 
 // lzUse returns the statements using lazy parameter P and how often P itself is forced
 // inside this activation (-1: kept for later).
@@ -118,9 +121,20 @@ func lzUse(P string, kind int) ([]*nd, int) {
 		return []*nd{tr(L(A("force"), fr()))}, 1
 	case uSelf:
 		return []*nd{tr(A(P))}, 0
+	case uMutForce:
+		// the callee changes the state the argument reads before it forces: the force sees the change
+		return append(lzMutate(), tr(fr())), 1
+	case uForceMutForce:
+		// … and between two forces: the memo keeps the first value
+		return append(append([]*nd{tr(fr())}, lzMutate()...), tr(fr())), 2
 	}
 	return nil, 0
 }
+
+// lzMutate: the state the state-reading argument kinds depend on changes — the global `m`
+// (through bump) and the variable `a` of the call site (through the closure in `mu`, which the
+// wrappers re-make over their local `a`; at top level it is the global `a`).
+func lzMutate() []*nd { return []*nd{L(A("bump")), L(A("mu"))} }
 
 // argument expression kinds
 const (
@@ -133,10 +147,15 @@ const (
 	aCount
 	aStr
 	aListVal
+	aVarM
+	aVarA
+	aVarExpr
+	aClosureRead
 	aKinds
 )
 
-var lzArgNames = []string{"trace", "effect-then-unbound-symbol", "effect-then-type-error", "free-variable", "literal", "nested-lazy-call", "global-counter", "string", "list-value"}
+var lzArgNames = []string{"trace", "effect-then-unbound-symbol", "effect-then-type-error", "free-variable", "literal", "nested-lazy-call", "global-counter", "string", "list-value",
+	"bare-variable(global m)", "bare-variable(call-site a)", "compound-reading-variables", "closure-calls-reading-variables"}
 
 func lzArg(kind int, id int64) *nd {
 	switch kind {
@@ -154,6 +173,14 @@ func lzArg(kind int, id int64) *nd {
 		return L(A("begin"), L(A("set"), A("cnt"), L(A("+"), A("cnt"), I(1))), L(A("trace"), L(A("+"), A("cnt"), I(id))))
 	case aStr:
 		return L(A("trace"), A("\"x\""))
+	case aVarM:
+		return A("m")
+	case aVarA:
+		return A("a")
+	case aVarExpr:
+		return L(A("+"), A("a"), L(A("*"), A("m"), I(2)))
+	case aClosureRead:
+		return L(A("+"), L(A("ra")), L(A("rd")))
 	case aListVal:
 		// a value that is not self-evaluating (apply/map must hand over the value, not re-evaluate it)
 		return L(A("list"), L(A("trace"), I(id)), I(2))
@@ -188,14 +215,16 @@ var lzRouteNames = []string{"direct", "alias", "parameter", "computed-cond", "co
 	"map-array", "map-list", "wrapper-with-locals", "recursion", "self-tail-call", "self-tail-call+nested-same-name-defn", "wrapper-with-lazy-param", "caller-is-a-closure-over-a"}
 
 type lzScen struct {
-	fn     lzFn
-	uses   []int // per fixed parameter (lazy ones: use kind; strict ones: 0 unused, 1 used, 2 force of a value, 3 substitute of a value)
-	args   []int // arg kinds, len = nfixed + extra
-	route  int
-	typed  bool
-	later  int   // number of follow-up texts calling (k)
-	named  []int // typed func only: the outer call names its arguments, written in this order of formals
-	ndelta int   // arity error: args added (+) or removed (-) (malformed stream only)
+	fn       lzFn
+	uses     []int // per fixed parameter (lazy ones: use kind; strict ones: 0 unused, 1 used, 2 force of a value, 3 substitute of a value)
+	args     []int // arg kinds, len = nfixed + extra
+	route    int
+	typed    bool
+	later    int   // number of follow-up texts calling (k)
+	mut      int   // 0: no extra mutation; 1: the callee changes the state before any use; 2: after the uses of each parameter; 3: both
+	laterMut bool  // follow-up texts change the state before / between forcing the kept thunk
+	named    []int // typed func only: the outer call names its arguments, written in this order of formals
+	ndelta   int   // arity error: args added (+) or removed (-) (malformed stream only)
 }
 
 var lzHelpers = []*nd{
@@ -205,14 +234,33 @@ var lzHelpers = []*nd{
 	L(A("defn"), A("sid"), SQ(A("v")), A("v")),
 	L(A("defn"), A("lid"), SQ(A("#v")), L(A("force"), A("#v"))),
 	L(A("defn"), A("lign"), SQ(A("#v")), I(0)),
+	L(A("def"), A("m"), I(1)),
+	L(A("defn"), A("bump"), SQ(), L(A("set"), A("m"), L(A("+"), A("m"), I(10))), A("m")),
+	L(A("defn"), A("rd"), SQ(), A("m")),
+	L(A("def"), A("mu"), L(A("fn"), SQ(), L(A("set"), A("a"), L(A("+"), A("a"), I(10))), I(0))),
+	L(A("def"), A("ra"), L(A("fn"), SQ(), A("a"))),
+}
+
+// rebind: inside a wrapper with a local `a`, `mu` and `ra` are re-made over that local
+func lzRebind() []*nd {
+	return []*nd{
+		L(A("set"), A("mu"), L(A("fn"), SQ(), L(A("set"), A("a"), L(A("+"), A("a"), I(10))), I(0))),
+		L(A("set"), A("ra"), L(A("fn"), SQ(), A("a"))),
+	}
 }
 
 // body of f: entry marker, the uses, exit marker value
 func (sc *lzScen) body() []*nd {
 	f := sc.fn
 	out := []*nd{L(A("trace"), I(100))}
+	if sc.mut&1 != 0 {
+		out = append(out, lzMutate()...)
+	}
 	for i := range f.lazy {
 		P := f.pname(i)
+		if i > 0 && sc.mut&2 != 0 {
+			out = append(out, lzMutate()...)
+		}
 		if f.lazy[i] {
 			st, _ := lzUse(P, sc.uses[i])
 			out = append(out, st...)
@@ -316,7 +364,7 @@ func (sc *lzScen) texts() [][]*nd {
 		t1 = append(t1, L(A("def"), A("g"), A("f")))
 		c = call(A("g"), args)
 	case rParam:
-		t1 = append(t1, L(A("defn"), A("via"), SQ(A("h"), A("a")), call(A("h"), args)))
+		t1 = append(t1, L(append(append([]*nd{A("defn"), A("via"), SQ(A("h"), A("a"))}, lzRebind()...), call(A("h"), args))...))
 		c = L(A("via"), A("f"), I(7))
 	case rComputedCond:
 		c = call(L(A("cond"), L(A("trace"), I(99)), A("f"), A("sid")), args)
@@ -333,7 +381,7 @@ func (sc *lzScen) texts() [][]*nd {
 	case rMapList:
 		c = L(A("map"), A("f"), call(A("list"), args))
 	case rWrapper:
-		t1 = append(t1, L(A("defn"), A("caller"), SQ(A("a")), L(A("let"), SQ(A("b"), I(2)), L(A("trace"), I(98)), call(A("f"), args))))
+		t1 = append(t1, L(A("defn"), A("caller"), SQ(A("a")), L(append(append([]*nd{A("let"), SQ(A("b"), I(2)), L(A("trace"), I(98))}, lzRebind()...), call(A("f"), args))...)))
 		c = L(A("caller"), I(7))
 	case rLazyWrapper:
 		// the wrapper's own lazy parameter is handed on to f's first parameter
@@ -341,12 +389,12 @@ func (sc *lzScen) texts() [][]*nd {
 			args = []*nd{lzArg(aTrace, 1)}
 		}
 		a2 := append([]*nd{A("#w")}, args[1:]...)
-		t1 = append(t1, L(A("defn"), A("cw"), SQ(A("#w"), A("a")), call(A("f"), a2)))
+		t1 = append(t1, L(append(append([]*nd{A("defn"), A("cw"), SQ(A("#w"), A("a"))}, lzRebind()...), call(A("f"), a2))...))
 		c = L(A("cw"), args[0], I(7))
 	case rClosureCaller:
 		// the call site sits in a closure whose free variable lives in the scope of its maker,
 		// which has returned when the closure runs
-		t1 = append(t1, L(A("defn"), A("mkc"), SQ(A("a")), L(A("fn"), SQ(A("b")), call(A("f"), args))))
+		t1 = append(t1, L(A("defn"), A("mkc"), SQ(A("a")), L(append(append([]*nd{A("fn"), SQ(A("b"))}, lzRebind()...), call(A("f"), args))...)))
 		c = L(L(A("mkc"), I(7)), I(3))
 	case rRec, rTail, rTailShadowName:
 		c = call(A("f"), append([]*nd{I(int64(1 + len(sc.args)%2))}, args...))
@@ -355,7 +403,17 @@ func (sc *lzScen) texts() [][]*nd {
 	t1 = append(t1, A("cnt"))
 	out := [][]*nd{t1}
 	for i := 0; i < sc.later; i++ {
-		switch i % 3 {
+		v := i % 3
+		if sc.laterMut {
+			v = []int{3, 4, 0, 1}[i%4]
+		}
+		switch v {
+		case 3:
+			// the state changes after the caller has returned, before the kept thunk is forced
+			out = append(out, []*nd{L(A("mu")), L(A("bump")), L(A("k")), L(A("list"), A("a"), A("m"))})
+		case 4:
+			// … and between two forces of it
+			out = append(out, []*nd{L(A("list"), L(A("k")), L(A("begin"), L(A("mu")), L(A("bump")), L(A("k"))))})
 		case 0:
 			out = append(out, []*nd{L(A("k"))})
 		case 1:
@@ -409,6 +467,31 @@ func (sc *lzScen) count(g *Gen, stream string) {
 	}
 	if sc.typed {
 		g.Count("typed func declaration")
+	}
+	stateArg := false
+	for i, a := range sc.args {
+		if a == aVarM || a == aVarA || a == aVarExpr || a == aClosureRead || a == aFree {
+			if i < len(sc.fn.lazy) && sc.fn.lazy[i] {
+				stateArg = true
+			}
+		}
+	}
+	if stateArg {
+		g.Count("state-reading argument in a lazy position")
+		if sc.mut&1 != 0 {
+			g.Count("state-reading lazy argument x callee changes the state before any use")
+		}
+		if sc.mut&2 != 0 && len(sc.fn.lazy) > 1 {
+			g.Count("state-reading lazy argument x state changes between the uses of the parameters")
+		}
+		for i, lz := range sc.fn.lazy {
+			if lz && (sc.uses[i] == uMutForce || sc.uses[i] == uForceMutForce) {
+				g.Count("state-reading lazy argument x " + lzUseNames[sc.uses[i]])
+			}
+		}
+		if sc.laterMut && sc.later > 0 {
+			g.Count("state-reading lazy argument x state changes in a later text before/between forces of the kept thunk")
+		}
 	}
 	if sc.named != nil {
 		g.Count("typed func called with named arguments")
@@ -578,6 +661,9 @@ func lzRandom(g *Gen, typed bool) *lzScen {
 		if r.Intn(3) == 0 {
 			k = aTrace
 		}
+		if r.Intn(5) == 0 {
+			k = []int{aVarM, aVarA, aVarExpr, aClosureRead, aFree}[r.Intn(5)]
+		}
 		sc.args = append(sc.args, k)
 	}
 	for tries := 0; ; tries++ {
@@ -620,8 +706,10 @@ func lzRandom(g *Gen, typed bool) *lzScen {
 			kept = true
 		}
 	}
+	sc.mut = []int{0, 0, 1, 2, 3}[r.Intn(5)]
+	sc.laterMut = r.Intn(2) == 0
 	if kept {
-		sc.later = 1 + r.Intn(3)
+		sc.later = 1 + r.Intn(4)
 	} else if r.Intn(6) == 0 {
 		sc.later = 1
 	}
@@ -682,8 +770,8 @@ func lazyGen(g *Gen) {
 // with the seed), thorough: all.
 func lazySmallScope(g *Gen) {
 	shapes := [][]bool{{true}, {false}, {true, true}, {true, false}, {false, true}, {false, false}}
-	uses := []int{uNone, uForce1, uForce2, uKeep, uSubstForce}
-	kinds := []int{aTrace, aErrUnbound, aFree}
+	uses := []int{uNone, uForce1, uForce2, uKeep, uSubstForce, uForceMutForce}
+	kinds := []int{aTrace, aErrUnbound, aFree, aVarA}
 	idx := 0
 	for _, sh := range shapes {
 		for rest := 0; rest < 3; rest++ {
@@ -716,7 +804,7 @@ func lazySmallScope(g *Gen) {
 							anyLazy = anyLazy || lz
 						}
 						for i := 0; i < nargs; i++ {
-							if (i < len(sh) && sh[i]) || (!anyLazy && i == 0) || ak == aFree {
+							if (i < len(sh) && sh[i]) || (!anyLazy && i == 0) || ak == aFree || ak == aVarA {
 								sc.args = append(sc.args, ak)
 							} else {
 								sc.args = append(sc.args, aTrace)
@@ -729,6 +817,10 @@ func lazySmallScope(g *Gen) {
 						}
 						if u == uKeep {
 							sc.later = 2
+							sc.laterMut = idx%2 == 0
+						}
+						if ak == aFree || ak == aVarA {
+							sc.mut = idx % 3 // none / callee changes the state first / between parameters
 						}
 						sc.emit(g, "small", false)
 					}
@@ -762,6 +854,11 @@ var lazyFixed = []string{
 	"(defn f [#x n] (trace 100) (cond (== n 0) (force #x) (f (trace n) (- n 1)))) (f (trace 9) 2)",
 	"(defn f [#x n] (cond (== n 0) 0 (+ 1 (f (trace n) (- n 1))))) (f (trace 9) 2)",
 	"(defn strict [x] x) (def g strict) (g (trace 3))",
+	"(def n 1) (defn late [#x] (set n 2) (force #x)) (late n) (late (+ n 0))",
+	"(def n 1) (defn f [#x] (list (force #x) (begin (set n 42) (force #x)))) (f n) (def n 1) (f (* n 1))",
+	"(def k nil) (defn f [#x] (set k (fn [] (force #x))) 0) (defn c [a] (def g (fn [] (set a (+ a 1)))) (f a) g) (def h (c 5)) (h) (k) (h) (k)",
+	"(defn f [g #x] (g) (force #x)) (defn c [a] (f (fn [] (set a (+ a 1))) a)) (c 10)",
+	"(def v [1 2]) (defn f [#x] (aset v 0 9) (force #x)) (f (aget v 0)) (f v)",
 	"(defn f [#x] (force #x)) (defn mkc [a] (fn [b] (f (trace (+ a b))))) (def a 100) (def b 200) ((mkc 7) 3)",
 	"(def k nil) (defn f [#x] (set k (fn [] (force #x))) 0) (defn mkc [a] (fn [b] (f (trace (+ a b))))) (def a 100) (def b 200) ((mkc 7) 3) (k) (let [a 1 b 2] (k))",
 	"(defn f [#x] (let [a 50 b 60] ((fn [] (force #x))))) (defn mkc [a] (fn [b] (let [c 1] (f (trace (+ a (+ b c))))))) ((mkc 7) 3)",
